@@ -6,9 +6,8 @@
 
 package headers
 
-//@ spec func specIsDigit(c int) bool = '0' <= c && c <= '9'
-//@ spec func specIsSp(c int) bool = c == ' ' || c == '\t'
-//@ spec func specDecVal(s string, n int) int = n <= 0 ? 0 : (specIsDigit(s[n-1]) ? 10*specDecVal(s, n-1) + (s[n-1]-'0') : specDecVal(s, n-1))
+// specIsDigit, specIsSp and specDecVal (the mathematical value of the decimal
+// digits among the first n bytes of a string) come from /verif/assumed/00prelude.contracts.
 
 //@ props C07 C16
 //@ func parseRangeNumber
